@@ -226,16 +226,19 @@ fn command_go(
         let winc = winc.unwrap();
         let binc = binc.unwrap();
 
-        // We decrease the time to make sure we never run out
-        let white_time =
-            (wtime as f64 * FRACTION_OF_TOTAL_TIME) as u64 + winc - LATENCY_MS_COMPENSATE;
-        let black_time =
-            (btime as f64 * FRACTION_OF_TOTAL_TIME) as u64 + binc - LATENCY_MS_COMPENSATE;
+        // We decrease the time to make sure we never run out,
+        // and we never think for longer than what is left on our clock
+        let think_time = |clock: u64, increment: u64| {
+            ((clock as f64 * FRACTION_OF_TOTAL_TIME) as u64)
+                .saturating_add(increment)
+                .saturating_sub(LATENCY_MS_COMPENSATE)
+                .min(clock)
+        };
 
         time = if game.player() == Player::White {
-            Some(Duration::from_millis(white_time))
+            Some(Duration::from_millis(think_time(wtime, winc)))
         } else {
-            Some(Duration::from_millis(black_time))
+            Some(Duration::from_millis(think_time(btime, binc)))
         };
     }
 
